@@ -271,7 +271,10 @@ def check(ctx):
             form = forms[(n + len(fe)) % 3]
             add_run(tb, cfg, fe, "base", form, max_orders)
             if prop == "C18" and has_fault(tb, cfg) and fe not in ("qcconfig", "qcconfig_bare"):
-                add_run(tb, healthy_only(tb, cfg), fe, "healthy_of", form, 0)
+                hcfg = healthy_only(tb, cfg)
+                if fe == "numpy_arr" and not any(c["entries"] for c in hcfg):
+                    continue        # a bare array needs a stream id from the configuration: nothing healthy is left to name one
+                add_run(tb, hcfg, fe, "healthy_of", form, 0)
     if prop == "C06":
         # spec -> code: behaviours generated by TLC (-simulate): the collect order of each behaviour (complete, or a
         # prefix when the behaviour was cut at the depth bound) is replayed through the real collect_results
@@ -318,6 +321,9 @@ def check(ctx):
         else:
             o = "C05" if cl.startswith("c05") else "C06" if cl.startswith("c06") else "C18"
             ctx.other[o] = ctx.other.get(o, 0) + 1
+            if os.environ.get("VERIF_DEBUG"):
+                print("OTHER %s %s %s" % (o, cl, json.dumps({"frontend": ld["frontend"], "table": ld["table"], "config": ld["config"],
+                                                             "event": {k: e[k] for k in e if k not in ("table", "config")}})[:1500]))
     for e in [x for x in events if x["ev"] == "load"][:: max(1, runs // 5)][:5]:
         ctx.samples.append({"frontend": e["frontend"], "table": e["table"], "config": e["config"]})
     ctx.cov["distinct_nontrivial"] = len({json.dumps([e["table"], e["config"]], sort_keys=True)
